@@ -42,17 +42,23 @@ cfg("MC_core_w3", 3, 2, 1, [], 5)
 cfg("MC_core_l3", 2, 3, 1, [], 6)
 cfg("MC_core_l4", 1, 4, 1, [], 6)
 cfg("MC_core_w3l3", 3, 3, 2, [2], 6)
+cfg("MC_core_w3c7", 3, 2, 1, [], 7)            # 0.7 M states
+cfg("MC_core_l4c9", 2, 4, 1, [], 9)            # 1.3 M states
+cfg("MC_core_w3l3c7", 3, 3, 2, [2], 7)         # 12.6 M states, ~2.5 min
 # faults (C08)
 cfg("MC_fault_quick", 2, 1, 1, [], 3, faults=1, edges=True)
 cfg("MC_fault_w1", 1, 2, 1, [], 3, faults=1, edges=True)
 cfg("MC_fault2", 2, 1, 1, [], 4, faults=2)
 cfg("MC_fault_w3", 3, 1, 1, [], 4, faults=2)
+cfg("MC_fault_w3l2", 3, 1, 2, [2], 4, faults=2)
 # commands and accept errors (C05)
 cfg("MC_cmd_quick", 1, 1, 1, [1], 2, cmds=2, errs=1, edges=True)
 cfg("MC_cmd_c3", 1, 1, 1, [], 2, cmds=3, errs=1)
 cfg("MC_cmd_2l", 1, 1, 2, [2], 2, cmds=3, errs=1)
-cfg("MC_cmd_w2", 2, 1, 2, [2], 3, cmds=3, errs=2)
-cfg("MC_cmd_fault", 2, 1, 2, [2], 3, cmds=2, errs=1, faults=1)
+cfg("MC_cmd_w2l2e2", 2, 2, 2, [2], 3, cmds=3, errs=2)   # 75 M states, ~8 min
+cfg("MC_cmd_w2", 2, 1, 2, [2], 2, cmds=3, errs=1)          # 2.9 M states
+cfg("MC_cmd_w2b", 2, 1, 1, [1], 3, cmds=2, errs=1)         # 0.8 M states
+cfg("MC_cmd_fault", 2, 2, 1, [], 3, cmds=2, errs=1, faults=1)  # 8.2 M states
 # liveness form of C03 on the smallest config
 cfg("LIVE_C03", 1, 1, 1, [], 2, spec="FairSpec", props="C03_Live", invs="")
 cfg("LIVE_C03_w2", 2, 1, 1, [], 3, spec="FairSpec", props="C03_Live", invs="")
